@@ -72,4 +72,17 @@ def boltRun (ops : List SOp) : Bolt := ops.foldl boltStep []
 def MNode.lookup (root : MNode) (nm : Name) : Option (Nat × Pkt) :=
   (root.find nm).bind fun n => n.wire.map fun p => (n.ver, p)
 
+/-- packet `p` is stored with version `v` at a name under `name`, and no name under `name` holds a larger version -/
+def NewestUnder (m : Content) (name : Name) (v : Nat) (p : Pkt) : Prop :=
+  ∃ nm, pfxOf name nm = true ∧ m nm = some (v, p) ∧
+    ∀ nm' v' p', pfxOf name nm' = true → m nm' = some (v', p') → v' ≤ v
+
+/-- nothing is stored at or below `name` -/
+def NoneUnder (m : Content) (name : Name) : Prop := ∀ nm, pfxOf name nm = true → m nm = none
+
+theorem pfxOf_trans (a b c : Name) (h1 : pfxOf a b = true) (h2 : pfxOf b c = true) : pfxOf a c = true := by
+  obtain ⟨r1, rfl⟩ := (pfxOf_iff a b).mp h1
+  obtain ⟨r2, rfl⟩ := (pfxOf_iff _ c).mp h2
+  rw [List.append_assoc]; exact pfxOf_append a _
+
 end Ndn.C15
